@@ -20,6 +20,18 @@ CHECKS = {
             'Trusts CPython dict/set semantics, the reference model in vlib/worldops.py, Hypothesis as '
             'generator/shrinker. Order of query results is not compared.',
             'DESIGN.md section 3 / C01'),
+    'C05': ('exploration',
+            'model-based stateful property testing (Hypothesis): histories weighted to deferred deletion + '
+            'operations on the same id, sentinel processor observing the frame start, deterministic line '
+            'budget for termination',
+            'Randomised search over histories with shrinking; after delete_entity and around every process() '
+            'the observable state (entity_exists/entities/get_components/get, order of on_remove vs '
+            'processors, exceptions of process, id reuse) is compared with a reference model; recovery after '
+            'a legitimately failed frame is exercised. High confidence for small-scope combinations, no proof.',
+            'Trusts the reference model in vlib/worldops.py; a hang is judged by a 200000-line budget inside '
+            'desper; KeyError for deferred deletion of an id that owned nothing is accepted (pinned by the '
+            'repository tests) but not demanded.',
+            'DESIGN.md section 3 / C05'),
 }
 
 ALL = ['C%02d' % i for i in range(1, 21)]
